@@ -349,7 +349,10 @@ class JMCDecodeJSONError(ValueError):
         line = token.line + error.lineno - 1
         col = token.col + error.colno - 1 if token.line == line else error.colno
 
-        msg = f"In {tokenizer.file_path}\n{error.msg} at line {line} col {col}.\n{tokenizer.file_string.split(NEW_LINE)[line - 1][:col - 1]} <-"
+        # A token made by a `#deepdefine` macro carries the line number of the header file
+        lines = tokenizer.file_string.split(NEW_LINE)
+        source_line = lines[line - 1] if 0 < line <= len(lines) else ""
+        msg = f"In {tokenizer.file_path}\n{error.msg} at line {line} col {col}.\n{source_line[:col - 1]} <-"
 
         log(self, (msg,))
         super().__init__(msg)
